@@ -533,6 +533,14 @@ func runSched(col *Collector, focus, tier string, seed int64) {
 	}
 	if focus == "C02" || focus == "C03" {
 		c02RealConfigCases(col, focus)
+		slowFailingUpCases(col, focus)
+	}
+	if focus == "C02" {
+		simultaneousFailureCase(col, 48, map[bool]int{false: 16000, true: 80000}[tier == "thorough"])
+		simultaneousFailureCase(col, 8, map[bool]int{false: 2400, true: 12000}[tier == "thorough"])
+	}
+	if focus == "C01" {
+		includedWideOrderCase(col, map[bool]int{false: 600, true: 5000}[tier == "thorough"])
 	}
 	if focus == "C03" {
 		reps := 400
@@ -542,6 +550,8 @@ func runSched(col *Collector, focus, tier string, seed int64) {
 		for _, k := range []int{2, 4, 8} {
 			includedInParallelCase(col, k, 3, reps)
 		}
+		includedInParallelCaseC(col, 2, 2, reps, true)
+		includedInParallelCaseC(col, 3, 3, reps/2, true)
 		for _, k := range []int{2, 3, 5} {
 			fanInStressCase(col, k, reps, false)
 			fanInStressCase(col, k, reps/2, true)
@@ -744,7 +754,12 @@ func (r *countRunner) Finish() {}
 // one pipeline included by several stages that are eligible at the same time: the inner pipeline is scheduled by
 // several loops at once, and each of its stages must still be executed exactly once
 func includedInParallelCase(col *Collector, includers, inner, reps int) {
-	cs := Case{Replay: fmt.Sprintf("pipeline P (%d independent stages) included by %d stages with no dependency between them, %d repetitions", inner, includers, reps),
+	includedInParallelCaseC(col, includers, inner, reps, false)
+}
+
+// withCond: every inner stage has a condition that holds (a program run by each of the loops that look at the stage)
+func includedInParallelCaseC(col *Collector, includers, inner, reps int, withCond bool) {
+	cs := Case{Replay: fmt.Sprintf("pipeline P (%d independent stages, each with a condition that holds: %v) included by %d stages with no dependency between them, %d repetitions", inner, withCond, includers, reps),
 		Tags: []string{"nested", "nested-included-in-parallel"}, NonTrivial: true}
 	bad := ""
 	for rep := 0; rep < reps && bad == "" && cs.Fail == ""; rep++ {
@@ -752,7 +767,11 @@ func includedInParallelCase(col *Collector, includers, inner, reps int) {
 		for i := 0; i < inner; i++ {
 			t := task.NewTask()
 			t.Name = fmt.Sprintf("x%d", i)
-			ps = append(ps, &scheduler.Stage{Name: t.Name, Task: t})
+			st := &scheduler.Stage{Name: t.Name, Task: t}
+			if withCond {
+				st.Condition = "true"
+			}
+			ps = append(ps, st)
 		}
 		p, err := scheduler.NewExecutionGraph(ps...)
 		if err != nil {
@@ -801,6 +820,7 @@ type barrierRunner struct {
 	k       int
 	waiting int
 	release chan struct{}
+	fail    string // the task of this name fails
 }
 
 func (r *barrierRunner) Run(t *task.Task) error {
@@ -819,6 +839,9 @@ func (r *barrierRunner) Run(t *task.Task) error {
 	select {
 	case <-ch:
 	case <-time.After(5 * time.Second):
+	}
+	if t.Name == r.fail {
+		return fmt.Errorf("task %s failed", t.Name)
 	}
 	return nil
 }
@@ -876,6 +899,155 @@ func fanInStressCase(col *Collector, k, reps int, included bool) {
 	cs.Impl = "once=" + fmt.Sprint(bad == "")
 	if bad != "" && cs.Fail == "" {
 		cs.Fail, cs.Sig = bad, "c03-twice"
+	}
+	col.Add(cs)
+}
+
+// k independent stages end at the same instant, ONE of them failing; each has a dependant of its own: the failure is the
+// failing stage's and nobody else's - the run reports it, its dependant is cancelled and never runs, every other
+// dependant runs once
+func simultaneousFailureCase(col *Collector, k, reps int) {
+	// four independent series side by side (the window is a few instructions wide: it takes thousands of repetitions)
+	var wg sync.WaitGroup
+	for w := 0; w < 4; w++ {
+		wg.Add(1)
+		go func() {
+			defer wg.Done()
+			simultaneousFailureSeries(col, k, reps/4)
+		}()
+	}
+	wg.Wait()
+}
+
+func simultaneousFailureSeries(col *Collector, k, reps int) {
+	cs := Case{Replay: fmt.Sprintf("%d independent stages released at the same instant, p0 fails; each has one dependant; %d repetitions", k, reps), Tags: []string{"simultaneous-failure"}, NonTrivial: true}
+	bad := ""
+	for rep := 0; rep < reps && bad == "" && cs.Fail == ""; rep++ {
+		var ps []*scheduler.Stage
+		for i := 0; i < k; i++ {
+			t, d := task.NewTask(), task.NewTask()
+			t.Name, d.Name = fmt.Sprintf("p%d", i), fmt.Sprintf("d%d", i)
+			ps = append(ps, &scheduler.Stage{Name: t.Name, Task: t}, &scheduler.Stage{Name: d.Name, Task: d, DependsOn: []string{t.Name}})
+		}
+		g, err := scheduler.NewExecutionGraph(ps...)
+		if err != nil {
+			cs.Fail, cs.Sig = err.Error(), "sched-setup"
+			break
+		}
+		r := &barrierRunner{n: map[string]int{}, k: k, release: make(chan struct{}), fail: "p0"}
+		sd := scheduler.NewScheduler(r)
+		sd.VerifSetPause(20 * time.Microsecond)
+		done := make(chan error, 1)
+		go func() { done <- sd.Schedule(g) }()
+		var serr error
+		select {
+		case serr = <-done:
+		case <-time.After(20 * time.Second):
+			cs.Fail, cs.Sig = "Schedule did not return within 20s", "c03-no-return"
+			continue
+		}
+		nodes := g.Nodes()
+		r.mu.Lock()
+		switch {
+		case serr == nil:
+			bad = fmt.Sprintf("repetition %d: stage p0 failed and the run reported no error", rep)
+		case nodes["p0"].ReadStatus() != scheduler.StatusError:
+			bad = fmt.Sprintf("repetition %d: the failing stage p0 ended with status %d", rep, nodes["p0"].ReadStatus())
+		case nodes["d0"].ReadStatus() != scheduler.StatusCanceled || r.n["d0"] != 0:
+			bad = fmt.Sprintf("repetition %d: the dependant of the failing stage ended with status %d after %d executions", rep, nodes["d0"].ReadStatus(), r.n["d0"])
+		default:
+			for i := 1; i < k && bad == ""; i++ {
+				p, d := fmt.Sprintf("p%d", i), fmt.Sprintf("d%d", i)
+				if nodes[p].ReadStatus() != scheduler.StatusDone || nodes[d].ReadStatus() != scheduler.StatusDone || r.n[d] != 1 {
+					bad = fmt.Sprintf("repetition %d: stage %s succeeded; it ended with status %d, its dependant with status %d after %d executions", rep, p, nodes[p].ReadStatus(), nodes[d].ReadStatus(), r.n[d])
+				}
+			}
+		}
+		r.mu.Unlock()
+	}
+	cs.Impl = "as-determined=" + fmt.Sprint(bad == "")
+	if bad != "" && cs.Fail == "" {
+		cs.Fail, cs.Sig = bad, "c02-final-status"
+	}
+	col.Add(cs)
+}
+
+// a runner that records, for every task whose name begins with "l", whether all tasks whose names begin with "r" had
+// ended when it started; r-tasks last a moment
+type orderRunner struct {
+	mu    sync.Mutex
+	roots int
+	ended int
+	early []string
+	n     map[string]int
+}
+
+func (r *orderRunner) Run(t *task.Task) error {
+	r.mu.Lock()
+	r.n[t.Name]++
+	if strings.HasPrefix(t.Name, "l") && r.ended < r.roots {
+		r.early = append(r.early, fmt.Sprintf("%s started when %d of %d of its dependencies had finished", t.Name, r.ended, r.roots))
+	}
+	r.mu.Unlock()
+	if strings.HasPrefix(t.Name, "r") {
+		time.Sleep(150 * time.Microsecond)
+		r.mu.Lock()
+		r.ended++
+		r.mu.Unlock()
+	}
+	return nil
+}
+func (r *orderRunner) Cancel() {}
+func (r *orderRunner) Finish() {}
+
+// a wide pipeline (8 roots, 12 leaves each depending on all roots) included by two stages eligible together: two loops
+// begin to work on one graph within microseconds of each other; no leaf starts before all roots have finished
+func includedWideOrderCase(col *Collector, reps int) {
+	cs := Case{Replay: fmt.Sprintf("pipeline P (8 roots, 12 leaves depending on all of them) included by two stages with no dependency between them, %d repetitions", reps), Tags: []string{"nested", "nested-included-in-parallel", "wide"}, NonTrivial: true}
+	bad := ""
+	for rep := 0; rep < reps && bad == "" && cs.Fail == ""; rep++ {
+		var ps []*scheduler.Stage
+		var roots []string
+		for i := 0; i < 8; i++ {
+			t := task.NewTask()
+			t.Name = fmt.Sprintf("r%d", i)
+			roots = append(roots, t.Name)
+			ps = append(ps, &scheduler.Stage{Name: t.Name, Task: t})
+		}
+		for i := 0; i < 12; i++ {
+			t := task.NewTask()
+			t.Name = fmt.Sprintf("l%d", i)
+			ps = append(ps, &scheduler.Stage{Name: t.Name, Task: t, DependsOn: roots})
+		}
+		p, err := scheduler.NewExecutionGraph(ps...)
+		var g *scheduler.ExecutionGraph
+		if err == nil {
+			g, err = scheduler.NewExecutionGraph(&scheduler.Stage{Name: "I0", Pipeline: p}, &scheduler.Stage{Name: "I1", Pipeline: p})
+		}
+		if err != nil {
+			cs.Fail, cs.Sig = err.Error(), "sched-setup"
+			break
+		}
+		r := &orderRunner{roots: 8, n: map[string]int{}}
+		sd := scheduler.NewScheduler(r)
+		sd.VerifSetPause(50 * time.Microsecond)
+		done := make(chan error, 1)
+		go func() { done <- sd.Schedule(g) }()
+		select {
+		case <-done:
+		case <-time.After(20 * time.Second):
+			cs.Fail, cs.Sig = "Schedule did not return within 20s", "c03-no-return"
+			continue
+		}
+		r.mu.Lock()
+		if len(r.early) > 0 {
+			bad = fmt.Sprintf("repetition %d: %s", rep, r.early[0])
+		}
+		r.mu.Unlock()
+	}
+	cs.Impl = "in-order=" + fmt.Sprint(bad == "")
+	if bad != "" && cs.Fail == "" {
+		cs.Fail, cs.Sig = bad, "c01-early-start"
 	}
 	col.Add(cs)
 }
